@@ -172,3 +172,29 @@ static inline int lemma_bcast_associative(sv_t a, sv_t b, sv_t c)
   return bc_eq(l, r);
 }
 #endif
+
+/* ---- element mapping of broadcast_to (bounded unit): source index = destination index with prepended axes dropped and
+ *      stretched axes mapped to 0 */
+#ifndef C06_NO_FIXED
+static inline int c06_small(sv_t s, unsigned long maxrank, unsigned long maxext)
+{ if (SV_LEN(s) > maxrank) return 0; int ok = 1; for (unsigned long k = 0; k < 4; k++) if (k < SV_LEN(s)) ok = ok && SV_AT(s, k) >= 1UL && SV_AT(s, k) <= maxext; return ok; }
+static inline int pre_verif_broadcast_to_index(sv_t indices, sv_t src_shape, sv_t dst_shape)
+{
+  if (!(c06_small(src_shape, 4, 4) && c06_small(dst_shape, 4, 4) && SV_LEN(indices) == SV_LEN(dst_shape))) return 0;
+  int ok = 1;
+  for (unsigned long k = 0; k < 4; k++) if (k < SV_LEN(dst_shape)) ok = ok && SV_AT(indices, k) < SV_AT(dst_shape, k);   /* a valid destination index */
+  return ok;
+}
+static inline int post_verif_broadcast_to_index(sv_t indices, sv_t src_shape, sv_t dst_shape, bti_res_t ret)
+{
+  if (ret.ok != (spec_bto_ok(src_shape, dst_shape) != 0)) return 0;
+  if (!ret.ok) return 1;
+  if (SV_LEN(ret.src_index) != SV_LEN(src_shape)) return 0;
+  unsigned long shift = SV_LEN(dst_shape) - SV_LEN(src_shape);
+  int ok = 1;
+  for (unsigned long k = 0; k < 4; k++)
+    if (k < SV_LEN(src_shape))
+      ok = ok && SV_AT(ret.src_index, k) == (SV_AT(src_shape, k) == 1UL ? 0UL : SV_AT(indices, k + shift)) && SV_AT(ret.src_index, k) < SV_AT(src_shape, k);
+  return ok;
+}
+#endif
